@@ -138,8 +138,11 @@ impl notify::EventHandler for NotifyEventHandler {
                     // Whether the listing of the parent directory changed too,
                     // and what the entry was if it does not exist anymore
                     let (with_parent, is_dir) = match event.kind {
+                        notify::EventKind::Create(_)
+                        | notify::EventKind::Modify(notify::event::ModifyKind::Name(_)) => {
+                            (true, None)
+                        }
                         notify::EventKind::Any | notify::EventKind::Modify(_) => (false, None),
-                        notify::EventKind::Create(_) => (true, None),
                         notify::EventKind::Remove(notify::event::RemoveKind::File) => {
                             (true, Some(false))
                         }
